@@ -157,6 +157,7 @@ int main() {
             }
           }
           printf("%s P %d %zu\n", tag, nbad == 0 ? 1 : 0, nbad);
+          fflush(stdout); // what the class was given must be visible even if the construction never returns
           if (nbad == 0 || getenv("C15_FORCE") != nullptr) {
             g.compute_grid(nthr);
             dump(tag, g, n, q);
